@@ -121,7 +121,10 @@ def run (t : Tier) : Emit Unit := do
       let uFirst := unitOfOrdinal us start
       let uLast := unitOfOrdinal us (start + len - 1)
       let maxMissing := (((List.range (uLast + 1 - uFirst + 1)).map fun j => (us.getD (uFirst + j - 1) default).data.length).sum)
-      let c := demuxCase (bytesOf del) { view := .perpid, noErr := true } none none "loss-burst" "" "loss"
+      let lastDropped := drop.getLast?.getD 0
+      let isPSIb := (us.getD uLast default).psi
+      let clsB := if looksLikeUnit (fragmentAfter ps lastDropped) isPSIb then "headless-fragment-looks-like-unit" else ""
+      let c := demuxCase (bytesOf del) { view := .perpid, noErr := true } none none "loss-burst" clsB "loss"
       let pmts := if pid = 0 then (m.units.filter (fun u => u.psi && u.pid ≥ 0x1000)).map (·.pid) |>.eraseDups else []
       let mm := if pid = 0 then 1000 else maxMissing + (us.getD uFirst default).data.length
       emit "C06" { c with args := c.args ++ [("expect", jstr (jesc expAll)), ("faultPids", jarr ((pid :: pmts).map jnat)), ("maxMissing", jnat mm)] }
